@@ -23,7 +23,7 @@ static void et_make_cfg(const char *profile, vh_rng_t *g, uint64_t idx)
   et_cfg_t *c = &et_cfg;
   int       i;
   static const int base_w[K_N] = { 6, 8, 5, 6, 4, 3, 2, /* requests */
-                                   2, 2, 1, 2, 3, 3, 1, 3, 3, 2, 3, 1, 2, /* channel calls */
+                                   1, 2, 1, 2, 3, 3, 1, 3, 3, 2, 3, 1, 2, /* channel calls */
                                    2, 6 };
   memset(c, 0, sizeof(*c));
   c->profile         = strcmp(profile, "timers") == 0 ? ET_P_TIMERS : ET_P_STRESS;
@@ -284,6 +284,12 @@ static void et_run_case(const char *profile, uint64_t seed, uint64_t idx)
   alarm(240); /* last resort; the watchdog thread leaves much earlier */
   vh_case_begin(idx);
 
+  vh_trace("case %llu: profile=%s backend=%d clients=%d ops=%d stayopen=%d usevc=%d tries=%d timeout=%d/%d nsrv=%d "
+           "from_file=%d reinit_mode=%d reload_vs_destroy=%d inject=%d destroy_outstanding=%d conn=%d srv=%d burst=%d",
+           (unsigned long long)idx, profile, et_cfg.backend, et_cfg.nclients, et_cfg.nops, et_cfg.stayopen,
+           et_cfg.usevc, et_cfg.tries, et_cfg.timeout_ms, et_cfg.maxtimeout_ms, et_cfg.nsrv,
+           et_cfg.servers_from_resolvconf, et_cfg.reinit_mode, et_cfg.reload_vs_destroy, et_cfg.inj_density,
+           et_cfg.destroy_outstanding, et_cfg.conn_sit, et_cfg.srv_sit, et_cfg.burst);
   et_setup_scratch();
   atomic_store(&et_inj_seed, et_case_seed ^ 0x5eed);
   atomic_store(&et_inj_density, 0);
